@@ -63,15 +63,35 @@ def new_cluster(c):
     return {"svcs": c["dyn"]["svcs2"], "slices": c["dyn"]["slices2"], "pods": c.get("pods")}
 
 
+def probe_fixes(cases):
+    """which of the proposed repairs F40 / F41 / F42 the tree under test contains, read off the
+    corpus witnesses the harness runs first (the model variant the correspondence follows)"""
+    fx = {"fx40": False, "fx41": False, "fx42": False}
+    for c in cases:
+        if not isinstance(c.get("obs"), list) or not c["obs"]:
+            continue
+        if c["class"] == "corpus-unnamed-port":
+            fx["fx40"] = all(o.get("entry") == [] for o in c["obs"])
+        elif c["class"] == "corpus-dup-address":
+            fx["fx41"] = all(len(o.get("entry") or []) == len(set(o.get("entry") or [])) for o in c["obs"])
+        elif c["class"] == "corpus-externalname":
+            fx["fx42"] = c["obs"][-1].get("entry") == ["ext.example.com:80"]
+    return fx
+
+
+def cq_fixes(fx):
+    return "{| fx40 := %s; fx41 := %s; fx42 := %s |}" % (C.cq_bool(fx["fx40"]), C.cq_bool(fx["fx41"]), C.cq_bool(fx["fx42"]))
+
+
 def rows_of(c):
     """one Coq row per backend of the case; row id = case id * 100 + backend index"""
     out = []
     if is_dyn(c):
-        return ["dyn_case %d %s false cl_%d %s %s %s" % (
+        return ["dyn_case %d fx %s false cl_%d %s %s %s" % (
             c["id"] * 100, C.cq_bool(c["plus"]), c["id"], C.cq_str(NS), cq_backend(c["backends"][0]),
             C.cq_list([C.cq_str(x) for x in c["obs"].get("after") or []]))]
     for i, (b, o) in enumerate(zip(c["backends"], c["obs"])):
-        out.append("backend_case %d %s %s cl_%d %s %s %s %s %s %s %s %s" % (
+        out.append("backend_case %d fx %s %s cl_%d %s %s %s %s %s %s %s %s" % (
             c["id"] * 100 + i, C.cq_bool(c["plus"]), C.cq_bool(c["resolver"]), c["id"], C.cq_str(NS), cq_backend(b),
             C.cq_z(o["err"]), C.cq_list(["(%s, %s)" % (C.cq_str(a), C.cq_str(p)) for a, p in o.get("eps") or []]),
             C.cq_bool(o["external"]), C.cq_list([C.cq_str(x) for x in o.get("entry") or []]), C.cq_bool(o["ext_svc"]),
@@ -86,11 +106,12 @@ def usable(c):
     return isinstance(c.get("obs"), list)
 
 
-def evaluate(run, cases, tag):
+def evaluate(run, cases, tag, fx):
     cases = [c for c in cases if usable(c)]
     if not cases:
         return []
     body = "From NIC Require Import Endpoints.Model Endpoints.Spec Endpoints.Cases.\n"
+    body += "Definition fx : Fixes := %s.\n" % cq_fixes(fx)
     rows = []
     for c in cases:
         body += "Definition cl_%d : Cluster :=\n  %s.\n" % (c["id"], cq_cluster(new_cluster(c) if is_dyn(c) else c))
@@ -205,10 +226,12 @@ def check(run):
     if rc != 0:
         raise C.TieBroken("c14 harness failed rc=%d: %s" % (rc, log[-1500:]))
     cases = C.read_jsonl(out)
+    fx = probe_fixes(cases)
+    run.cov["model_variant"] = fx
     shard = 150
     for k in range(0, len(cases), shard):
         part = cases[k:k + shard]
-        judge(run, part, evaluate(run, part, "%s_%d" % (run.tier, k // shard)))
+        judge(run, part, evaluate(run, part, "%s_%d" % (run.tier, k // shard), fx))
     for c in cases[:1] + [x for x in cases if x["class"] == "gen"][:1] + [x for x in cases if x["class"] == "dyn"][:2]:
         run.sample(c)
     run.cov["rule"] = ("a corpus of 9 fixed clusters (witnesses of the *_refuted theorems and the corner cases named in the property) followed by generated "
@@ -229,7 +252,9 @@ def check(run):
                        "createEndpointSliceHandlers, the REAL work queue is drained with the REAL lbc.sync, and the `server` lines of the file written last "
                        "must be the resolution on the cluster AFTER the events (dyn_by_op counts how many changes altered the servers).")
     run.cov["trusted_base"] = TRUSTED
-    run.assumptions += ["the pod lister returns pods in Go map order; the model is compared under every choice of the first pod",
+    run.assumptions += ["the correspondence follows the code variant of the tree under test (repairs F40 / F41 / F42 present or not, read off the corpus "
+                        "witnesses: model_variant); the specification S does not depend on the variant",
+                        "the pod lister returns pods in Go map order; the model is compared under every choice of the first pod",
                         "the nginx templates turn every server entry of the generated upstream into exactly one `server` line (not executed here)",
                         "owner type/name of a pod endpoint is a function of the pod name (no OwnerReferences are generated)"]
 
@@ -243,7 +268,13 @@ def replay(run, path):
     cases = C.read_jsonl(out)
     for i, c in enumerate(cases):      # ids may repeat inside a replay file (one backend per stored case)
         c["id"] = i
-    res = evaluate(run, cases, "replay")
+    probe = os.path.join(C.WORK, "cases", "c14_probe.jsonl")
+    rc, log = C.run_harness(binary, ["-n", "0", "-out", probe], timeout=600)
+    if rc != 0:
+        raise C.TieBroken("c14 harness failed on the corpus: %s" % log[-1500:])
+    fx = probe_fixes(C.read_jsonl(probe))
+    print("model variant followed by the correspondence: %s" % fx)
+    res = evaluate(run, cases, "replay", fx)
     byid = {c["id"]: c for c in cases}
     for r in res:
         c = byid[r[0] // 100]
